@@ -7,6 +7,8 @@ CONSTANTS
   MaxW = 3
   MaxVal = 1
   MaxPin = 1
+  TrackRounds = FALSE
   Confs <- ConfsSeq
+CONSTRAINT Constraint
 INVARIANTS TypeOK NoPanic
 CHECK_DEADLOCK FALSE
